@@ -1,6 +1,6 @@
 import logging
 from functools import wraps
-from threading import Lock
+from threading import RLock
 from contextlib import contextmanager
 
 from .logwrap import LogWrapper
@@ -24,7 +24,10 @@ def executor_loop(fn):
 
 class ShutdownHelper(object):
     def __init__(self):
-        self._lock = Lock()
+        # Re-entrant: executors which run callables while submit() still holds
+        # this lock (e.g. SyncExecutor, or any executor chained over it) must
+        # permit those callables to submit to the same executor.
+        self._lock = RLock()
         self.is_shutdown = False
 
     @contextmanager
